@@ -34,6 +34,14 @@ fn gc_parked(wait: Duration) -> bool {
     }
 }
 
+/// an open follow stream: bytes arrive from a reader thread (None: end of stream)
+struct FollowSrc {
+    rx: std::sync::mpsc::Receiver<Option<Vec<u8>>>,
+    pre: Vec<u8>,
+    child: Option<std::process::Child>,
+    conn: Option<std::os::unix::net::UnixStream>,
+}
+
 pub fn run(dir: PathBuf, clock: Option<u64>, gate_gc: bool, http: bool, serve: bool) {
     let rt = tokio::runtime::Builder::new_multi_thread()
         .worker_threads(4)
@@ -121,7 +129,8 @@ pub fn run(dir: PathBuf, clock: Option<u64>, gate_gc: bool, http: bool, serve: b
     let mut out = stdout.lock();
     println!("{}", ready);
     let mut nth: u64 = 0;
-    let mut follow_conn: Option<(std::os::unix::net::UnixStream, Vec<u8>)> = None;
+    let mut follow_src: Option<FollowSrc> = None;
+    let cli_bin: Option<String> = std::env::var("XSV_CLI").ok().filter(|s| !s.is_empty());
     for line in stdin.lock().lines() {
         let line = line.unwrap();
         if line.trim().is_empty() {
@@ -132,42 +141,74 @@ pub fn run(dir: PathBuf, clock: Option<u64>, gate_gc: bool, http: bool, serve: b
         // a panic inside the code under test is an observation, not a harness failure
         nth += 1;
         if http && op == "follow_open" {
-            // a streaming request that stays open while the parent goes on appending
-            use std::io::Write as _;
-            let target = req["target"].as_str().unwrap_or("/");
+            // a streaming request that stays open while the parent goes on appending: raw HTTP, or - `cli_args`
+            // given - the real `xs` binary with its standard output piped
+            use std::io::{Read as _, Write as _};
             let mut resp = json!({"status": -1});
-            if let Ok(mut c) = std::os::unix::net::UnixStream::connect(&sock) {
-                let _ = c.write_all(format!("GET {target} HTTP/1.1\r\nHost: localhost\r\n\r\n").as_bytes());
-                // The response head is written after `Store::read` returned, i.e. after the subscription exists: wait
-                // for it (not for some milliseconds), so that what the parent appends next is live traffic.
-                use std::io::Read as _;
-                let _ = c.set_read_timeout(Some(Duration::from_millis(200)));
-                let cap = std::time::Instant::now() + Duration::from_secs(10);
-                let mut pre = vec![];
-                let mut chunk = [0u8; 4096];
-                while !pre.windows(4).any(|w| w == b"\r\n\r\n") && std::time::Instant::now() < cap {
-                    match c.read(&mut chunk) {
-                        Ok(0) => break,
-                        Ok(n) => pre.extend_from_slice(&chunk[..n]),
-                        Err(e) if matches!(e.kind(), std::io::ErrorKind::WouldBlock | std::io::ErrorKind::TimedOut) => {}
-                        Err(_) => break,
+            let (tx, rx) = std::sync::mpsc::channel::<Option<Vec<u8>>>();
+            let pump = |mut r: Box<dyn std::io::Read + Send>, tx: std::sync::mpsc::Sender<Option<Vec<u8>>>| {
+                std::thread::spawn(move || {
+                    let mut chunk = [0u8; 65536];
+                    loop {
+                        match r.read(&mut chunk) {
+                            Ok(0) | Err(_) => {
+                                let _ = tx.send(None);
+                                break;
+                            }
+                            Ok(n) => {
+                                if tx.send(Some(chunk[..n].to_vec())).is_err() {
+                                    break;
+                                }
+                            }
+                        }
                     }
+                });
+            };
+            if let (Some(bin), Some(args)) = (cli_bin.as_ref(), req["cli_args"].as_array()) {
+                let args: Vec<String> = args.iter().filter_map(|a| a.as_str().map(String::from)).collect();
+                if let Ok(mut child) = std::process::Command::new(bin)
+                    .args(&args)
+                    .stdin(std::process::Stdio::null())
+                    .stdout(std::process::Stdio::piped())
+                    .stderr(std::process::Stdio::piped())
+                    .spawn()
+                {
+                    pump(Box::new(child.stdout.take().unwrap()), tx);
+                    follow_src = Some(FollowSrc { rx, pre: vec![], child: Some(child), conn: None });
+                    resp = json!({"status": 0});
                 }
-                follow_conn = Some((c, pre));
-                resp = json!({"status": 0});
+            } else if let Ok(mut c) = std::os::unix::net::UnixStream::connect(&sock) {
+                let target = req["target"].as_str().unwrap_or("/");
+                let _ = c.write_all(format!("GET {target} HTTP/1.1\r\nHost: localhost\r\n\r\n").as_bytes());
+                if let Ok(c2) = c.try_clone() {
+                    pump(Box::new(c2), tx);
+                    // The response head is written after `Store::read` returned, i.e. after the subscription exists:
+                    // wait for it (not for some milliseconds), so that what the parent appends next is live traffic.
+                    let cap = std::time::Instant::now() + Duration::from_secs(10);
+                    let mut pre = vec![];
+                    while !pre.windows(4).any(|w| w == b"\r\n\r\n") && std::time::Instant::now() < cap {
+                        match rx.recv_timeout(Duration::from_millis(200)) {
+                            Ok(Some(ch)) => pre.extend_from_slice(&ch),
+                            Ok(None) => break,
+                            Err(_) => {}
+                        }
+                    }
+                    follow_src = Some(FollowSrc { rx, pre, child: None, conn: Some(c) });
+                    resp = json!({"status": 0});
+                }
             }
             writeln!(out, "{}", resp).unwrap();
             out.flush().unwrap();
             continue;
         }
         if http && op == "follow_collect" {
-            use std::io::Read as _;
             let mut buf = vec![];
-            if let Some((mut c, pre)) = follow_conn.take() {
-                buf = pre;
+            let mut status: i64 = -1;
+            let mut over_http = true;
+            if let Some(mut src) = follow_src.take() {
+                buf = std::mem::take(&mut src.pre);
+                over_http = src.conn.is_some();
                 let wait = Duration::from_millis(req["wait_ms"].as_u64().unwrap_or(150));
-                let _ = c.set_read_timeout(Some(wait));
-                let mut chunk = [0u8; 65536];
                 // What the runner expects to arrive (ids of the frames it appended into the stream's scope, number of
                 // data frames of a limited stream): absence is concluded only after `cap_ms`, never from a short pause,
                 // so a loaded machine cannot turn into a "missing frame". Once everything expected is there (or
@@ -182,7 +223,7 @@ pub fn run(dir: PathBuf, clock: Option<u64>, gate_gc: bool, http: bool, serve: b
                 let mut grace: Option<std::time::Instant> = None;
                 let satisfied = |buf: &[u8]| {
                     let text = String::from_utf8_lossy(buf);
-                    let body = text.find("\r\n\r\n").map(|p| &text[p + 4..]).unwrap_or("");
+                    let body = if over_http { text.find("\r\n\r\n").map(|p| &text[p + 4..]).unwrap_or("") } else { &text[..] };
                     let data = body
                         .lines()
                         .filter(|l| {
@@ -194,10 +235,10 @@ pub fn run(dir: PathBuf, clock: Option<u64>, gate_gc: bool, http: bool, serve: b
                 };
                 loop {
                     let mut idle = false;
-                    match c.read(&mut chunk) {
-                        Ok(0) => break,
-                        Ok(n) => buf.extend_from_slice(&chunk[..n]),
-                        Err(e) if matches!(e.kind(), std::io::ErrorKind::WouldBlock | std::io::ErrorKind::TimedOut) => idle = true,
+                    match src.rx.recv_timeout(wait) {
+                        Ok(Some(ch)) => buf.extend_from_slice(&ch),
+                        Ok(None) => break,
+                        Err(std::sync::mpsc::RecvTimeoutError::Timeout) => idle = true,
                         Err(_) => break,
                     }
                     let now = std::time::Instant::now();
@@ -213,17 +254,39 @@ pub fn run(dir: PathBuf, clock: Option<u64>, gate_gc: bool, http: bool, serve: b
                         break;
                     }
                 }
+                if let Some(c) = src.conn.take() {
+                    let _ = c.shutdown(std::net::Shutdown::Both);
+                }
+                if let Some(mut child) = src.child.take() {
+                    // still running (a follower never ends by itself), ended by its limit, or failed
+                    status = match child.try_wait() {
+                        Ok(Some(st)) if !st.success() => {
+                            use std::io::Read as _;
+                            let mut e = String::new();
+                            if let Some(mut se) = child.stderr.take() {
+                                let _ = se.read_to_string(&mut e);
+                            }
+                            crate::cli::status_of(&crate::cli::Out { code: st.code().unwrap_or(-101), stdout: vec![], stderr: e })
+                        }
+                        _ => 200,
+                    };
+                    let _ = child.kill();
+                    let _ = child.wait();
+                }
             }
             let text = String::from_utf8_lossy(&buf).to_string();
-            let status = text.split(' ').nth(1).and_then(|c| c.parse::<i64>().ok()).unwrap_or(-1);
+            let body = if over_http {
+                status = text.split(' ').nth(1).and_then(|c| c.parse::<i64>().ok()).unwrap_or(-1);
+                text.find("\r\n\r\n").map(|p| text[p + 4..].to_string()).unwrap_or_default()
+            } else {
+                text
+            };
             let mut frames = vec![];
-            if let Some(p) = text.find("\r\n\r\n") {
-                for l in text[p + 4..].lines() {
-                    let l = l.trim();
-                    if l.starts_with('{') {
-                        if let Ok(v) = serde_json::from_str::<Value>(l) {
-                            frames.push(v);
-                        }
+            for l in body.lines() {
+                let l = l.trim();
+                if l.starts_with('{') {
+                    if let Ok(v) = serde_json::from_str::<Value>(l) {
+                        frames.push(v);
                     }
                 }
             }
@@ -232,7 +295,8 @@ pub fn run(dir: PathBuf, clock: Option<u64>, gate_gc: bool, http: bool, serve: b
             continue;
         }
         let res = std::panic::catch_unwind(std::panic::AssertUnwindSafe(|| {
-            if http {
+            // `direct`: the same operation on the Store API, past the front end (differential check of C13)
+            if http && !req["direct"].as_bool().unwrap_or(false) {
                 if op == "bad" {
                     let before = store.verif_dump();
                     let class = req["class"].as_str().unwrap_or("");
@@ -242,6 +306,11 @@ pub fn run(dir: PathBuf, clock: Option<u64>, gate_gc: bool, http: bool, serve: b
                     let after = store.verif_dump();
                     return json!({"status": r.status, "expect": expect, "same": before == after,
                                   "next_status": next.status, "body": String::from_utf8_lossy(&r.body)});
+                }
+                if let Some(bin) = cli_bin.as_ref() {
+                    if let Some(v) = crate::cli::exec(bin, &dir, op, &req, nth) {
+                        return v;
+                    }
                 }
                 if let Some(v) = crate::http::exec(&sock, op, &req, nth) {
                     return v;
